@@ -194,6 +194,7 @@ type OpProfile struct {
 	Spellings     bool
 	NoSingleton   bool
 	NoSingletonVars bool // variable JSON values never use single-item → list coercion
+	MultiFrag     bool // several fragments (inline / spreads) may be emitted into one selection set
 	VarBias       int  // 0 = default (1 in 3 arguments is a plain variable); n>0 = n in 10
 	SkipVarInList bool // do not put variables inside list/object literals
 	// FieldFilter, when set, restricts which fields may be selected (e.g. implemented by a mock).
@@ -490,7 +491,7 @@ func (g *opGen) selSet(parent string, depth int, env *envNode, isRoot bool) []*S
 		out = append(out, &Sel{Field: dup})
 	}
 	// fragments
-	if g.p.Fragments && !(isRoot && g.op.Kind != "query") && depth <= g.p.MaxDepth && g.r.IntN(3) == 0 {
+	for nfr := 0; g.p.Fragments && !(isRoot && g.op.Kind != "query") && depth <= g.p.MaxDepth && g.r.IntN(3) == 0 && (nfr == 0 || (g.p.MultiFrag && nfr < 3)); nfr++ {
 		conds := g.possibleConditions(parent)
 		cond := conds[g.r.IntN(len(conds))]
 		if g.r.IntN(2) == 0 {
